@@ -169,6 +169,9 @@ func TestISNRedundantHolder(t *testing.T) {
 			t.Fatalf("%v has no redundant holder", p)
 		}
 		for i, field := range fieldNames {
+			if !vlib.Mine(i) {
+				continue
+			}
 			ids := ordinalIDs(p.N)
 			if i%2 == 1 {
 				ids = sparseIDs(p)
@@ -182,14 +185,28 @@ func TestISNRedundantHolder(t *testing.T) {
 	}
 }
 
-// TestKnownTassaLowerDegree observes the third catalogued finding: hierarchy (2;{1,2}), every share
-// multiplied by 0 -- a sharing of 0 -- is refused by tassa.Reconstruct ("reconstruction failed").
-func TestKnownTassaLowerDegree(t *testing.T) {
-	all := []int{0, 1}
-	p := &policy.Policy{Family: policy.Hier, N: 2, Levels: []policy.Level{{T: 2, Members: all}}}
-	c := newCase(t, "KnownTassaLowerDegree", p, []uint64{1, 2}, policy.Ordinal, 1)
-	refused := envs["k256"].TassaZeroScaleProbe(t, c)
-	vlib.Known(knownTassaDegree, refused, "tassa over hierarchy (2;{1,2}): shares multiplied by the scalar 0 (a valid sharing of 0 by the zero polynomial) make Scheme.Reconstruct fail with 'reconstruction failed' because it demands degree exactly T_m-1; ScalarOp/Op are therefore not linear for combinations whose top coefficient vanishes")
+// TestTassaLowerDegree is the regression test of the fixed finding C02-tassa-refuses-lower-degree
+// on its minimal input and two neighbours: the Tassa body asserts that 0·shares and a+(q-1)·a
+// reconstruct to 0 over every qualified subset.
+func TestTassaLowerDegree(t *testing.T) {
+	const test = "TassaLowerDegree"
+	ps := []*policy.Policy{
+		{Family: policy.Hier, N: 2, Levels: []policy.Level{{T: 2, Members: []int{0, 1}}}},
+		{Family: policy.Hier, N: 3, Levels: []policy.Level{{T: 1, Members: []int{0}}, {T: 2, Members: []int{1, 2}}}},
+		{Family: policy.Hier, N: 4, Levels: []policy.Level{{T: 1, Members: []int{0, 1}}, {T: 3, Members: []int{2, 3}}}},
+	}
+	for j, p := range ps {
+		for i, field := range fieldNames {
+			if !vlib.Mine(j*len(fieldNames) + i) {
+				continue
+			}
+			vlib.NoPanic(t, fmt.Sprintf("tassa over %v", p), func() {
+				c := newCase(t, test, p, ordinalIDs(p.N), policy.Ordinal, h64(vlib.Seed(), p, field))
+				c.allSubsets()
+				envs[field].Tassa(t, c)
+			})
+		}
+	}
 }
 
 // ---- drawn policies --------------------------------------------------------------------------------------
@@ -264,7 +281,7 @@ func TestDrawn(t *testing.T) {
 	if vlib.Thorough() {
 		maxN, depth = 9, 3
 	}
-	vlib.Check(t, 260, func(t *rapid.T) {
+	vlib.Check(t, 480, func(t *rapid.T) {
 		solo := rapid.IntRange(0, 4).Draw(t, "solo") == 0
 		c, field := drawCase(t, test, maxN, policy.Opts{MaxDepth: depth, AllowSolo: solo}, 6, 56)
 		c.heavy = c.p.N <= 6
@@ -278,7 +295,7 @@ func TestDrawn(t *testing.T) {
 
 func TestPrivacyWitness(t *testing.T) {
 	const test = "PrivacyWitness"
-	vlib.Check(t, 240, func(t *rapid.T) {
+	vlib.Check(t, 400, func(t *rapid.T) {
 		c, field := drawCase(t, test, 6, policy.Opts{MaxDepth: 2, AllowSolo: rapid.IntRange(0, 4).Draw(t, "solo") == 0}, 0, 0)
 		// unqualified non-empty subsets in a drawn order; maximal unqualified sets first
 		var un []uint64
